@@ -141,7 +141,7 @@ type Imports []*Import
 func (imports *Imports) UnmarshalYAML(value *yaml.Node) error {
 	unpacked := []*Import(*imports)
 
-	if value.Tag != "!!seq" {
+	if value.Kind != yaml.SequenceNode {
 		return fmt.Errorf("expected import sequence")
 	}
 
@@ -168,7 +168,7 @@ type Versions []*Version
 func (versions *Versions) UnmarshalYAML(value *yaml.Node) error {
 	unpacked := []*Version(*versions)
 
-	if value.Tag != "!!map" {
+	if value.Kind != yaml.MappingNode {
 		return fmt.Errorf("expected versions map")
 	}
 
